@@ -513,6 +513,9 @@ package render
 //@ requires args: w != nil && (is(w, *render.trimWriter) ==> valid(as(w, *render.trimWriter)))
 //@ assumes compiledTree: c.cn != nil ==> forall(k, 0, len(c.cn.Body), c.cn.Body[k] != nil)
 //@ assigns *
+//@ ghost serr Val = nil
+//@ at call RenderSequence #1: serr = result
+//@ ensures propagates: result == serr
 //@ ensures onlyw: forall(x, "Val", x != w && x != wsink(w) && !newbuf(x) && !is(x, *render.trimWriter) ==> wtotal(x) == old(wtotal(x)))
 //@ ensures tree: @tree
 
@@ -522,6 +525,9 @@ package render
 //@ requires args: w != nil && (is(w, *render.trimWriter) ==> valid(as(w, *render.trimWriter))) && b != nil
 //@ assumes compiledTree: forall(k, 0, len(b.Body), b.Body[k] != nil)
 //@ assigns *
+//@ ghost serr Val = nil
+//@ at call RenderSequence #1: serr = result
+//@ ensures propagates: result == serr
 //@ ensures onlyw: forall(x, "Val", x != w && x != wsink(w) && !newbuf(x) && !is(x, *render.trimWriter) ==> wtotal(x) == old(wtotal(x)))
 //@ ensures tree: @tree
 
@@ -530,6 +536,10 @@ package render
 //@ props C12 C20 C01
 //@ panics nothing
 //@ assigns *
+//@ ghost cerr Val = nil
+//@ at call RenderChildren #1: cerr = result
+//@ ensures propagates: cerr != nil ==> result1 == cerr && result0 == ""
+//@ ensures ok: cerr == nil ==> result1 == nil
 //@ ensures outputElsewhere: forall(x, "Val", !newbuf(x) && !is(x, *render.trimWriter) ==> wtotal(x) == old(wtotal(x)))
 //@ ensures tree: @tree
 
